@@ -305,7 +305,7 @@ def runner_main(argv) -> int:
             except BaseException as ex:  # noqa
                 rec["error"] = type(ex).__name__ + ": " + str(ex)[:200].replace("\n", " ")
             return rec
-        plan = d.get("repeat", ["same", "shared"])
+        plan = ["instance"] + [x for x in d.get("repeat", ["same", "shared"]) if x != "instance"]
         try:
             for k, step in enumerate(plan):
                 if step == "same":          # fresh ClassDiagram + fresh ORMatic, same classes, same order
@@ -313,6 +313,21 @@ def runner_main(argv) -> int:
                     same = r2.get("text_sha") == out["text_sha"] and r2.get("gen") == out["gen"]
                     reps.append({"step": step, "same": same, "text_sha": r2.get("text_sha"), "error": r2.get("error"),
                                  "gen": None if same else r2.get("gen")})
+                elif step == "instance":    # the SAME ORMatic instance: make_all_tables() and to_sqlalchemy_file() once more
+                    rec2 = {}
+                    try:
+                        o.make_all_tables()
+                        g2 = inspect_ormatic(o)
+                        p2 = os.path.join(d_dir, f"{d['module']}_iface_{variant}_i{k}.py")
+                        with open(p2, "w") as f:
+                            o.to_sqlalchemy_file(f)
+                        rec2["text_sha"] = hashlib.sha1(open(p2).read().encode()).hexdigest()
+                        rec2["gen"] = g2
+                    except BaseException as ex:  # noqa
+                        rec2["error"] = type(ex).__name__ + ": " + str(ex)[:200].replace("\n", " ")
+                    same = rec2.get("text_sha") == out["text_sha"] and rec2.get("gen") == out["gen"]
+                    reps.append({"step": step, "same": same, "text_sha": rec2.get("text_sha"), "error": rec2.get("error"),
+                                 "gen": None if same else rec2.get("gen")})
                 elif step == "shared":      # a second ORMatic over the SAME ClassDiagram instance
                     r2 = again(f"s{k}", classes, diagram=cd)
                     same = r2.get("text_sha") == out["text_sha"] and r2.get("gen") == out["gen"]
@@ -841,7 +856,7 @@ def judge_repeat(rep, rec) -> bool:
     reps = r.get("repeat")
     if reps is None:
         return True
-    rep.extra["same_process_regenerations"] = rep.extra.get("same_process_regenerations", 0) + len([x for x in reps if x["step"] in ("same", "shared")])
+    rep.extra["same_process_regenerations"] = rep.extra.get("same_process_regenerations", 0) + len([x for x in reps if x["step"] in ("same", "shared", "instance")])
     bad = [x for x in reps if not x.get("same")]
     if not bad:
         return True
@@ -855,11 +870,12 @@ def judge_repeat(rep, rec) -> bool:
         diff = [{"class": t["cls"], "first": {k: first[t["cls"]][k] for k in ("builtin", "custom", "fks", "rels", "mapper")},
                  "again": {k: t[k] for k in ("builtin", "custom", "fks", "rels", "mapper")}}
                 for t in b["gen"]["tables"] if t["cls"] in first and t != first[t["cls"]]][:3]
-    rep.violation({"kind": "counterexample", "case": d, "python": snippet(d), "repeat_plan": d.get("repeat", ["same", "shared"]),
+    rep.violation({"kind": "counterexample", "case": d, "python": snippet(d), "repeat_plan": ["instance"] + d.get("repeat", ["same", "shared"]),
                    "steps": [{k: v for k, v in x.items() if k != "gen"} for x in reps], "first_text_sha": r.get("text_sha"),
                    "tables_that_differ": diff,
-                   "explanation": "generation is not a function of the model: a further generation in the SAME interpreter ('same' = fresh "
-                                  "ClassDiagram and fresh ORMatic over the same class objects, 'shared' = a second ORMatic over the same ClassDiagram; step '%s' of the plan) does not reproduce the first one "
+                   "explanation": "generation is not a function of the model: a further generation in the SAME interpreter ('instance' = make_all_tables() "
+                                  "and to_sqlalchemy_file() again on the same ORMatic instance, 'same' = fresh ClassDiagram and fresh ORMatic over the same class "
+                                  "objects, 'shared' = a second ORMatic over the same ClassDiagram; step '%s' of the plan) does not reproduce the first one "
                                   "(file text and/or ORMatic containers differ; error=%s)" % (b.get("step"), b.get("error"))})
     return False
 
@@ -882,21 +898,22 @@ def run(tier: str, seed: int, replay=None) -> int:
         "translator/t_parsefield.py (fail-closed ast translator: parse_field chain, relationship predicates, name builders, mapper-arg conditions -> Gen/ParseField.v)",
         "Orm/SchemaStr.v py_lower/py_startswith as the meaning of str.lower()/str.startswith() on ASCII identifiers",
         "hand-written parts of Orm/Schema.v (facts of an annotation, dataclass field inheritance, constructor contents), tied by comparing ORMatic's containers with `gen` on every generated model",
-        "source pins pins/ormatic.json (set pins/sets/ormatic.json, 52 methods of ormatic.py / wrapped_table.py / sqlalchemy_generator.py / class_diagram.py / "
+        "source pins pins/ormatic.json (set pins/sets/ormatic.json, 53 methods of ormatic.py / wrapped_table.py / sqlalchemy_generator.py / class_diagram.py / "
         "wrapped_field.py that Orm/Schema.v mirrors and t_parsefield does not regenerate, incl. the absence of a hand-written WrappedTable.__eq__): an edit reopens the correspondence obligation",
         "harness/c06.py: source renderer, regex reading of ColumnConstructor strings, mapper inspection and its canonical encoding",
         "SQLAlchemy / SQLite accept a layer that is statically well-formed: compared on every case, not proved (level: partial)",
     ]
     rep.extra["purity"] = ("C06_generation_is_a_function: in the model `gen` is a Gallina function (same class model and order => same schema, no hidden "
                            "state). The implementation is compared against exactly this: in every per-model worker the layer is generated again "
-                           "(for some models twice more, and after generating a different model in between) in the SAME interpreter from a fresh "
-                           "ClassDiagram and a fresh ORMatic over the same class objects; every such generation must give a byte-identical file and "
+                           "(first by calling make_all_tables() and to_sqlalchemy_file() once more on the same ORMatic instance, then - for some models "
+                           "twice more, and after generating a different model in between - in the SAME interpreter from a fresh ClassDiagram and a fresh ORMatic over "
+                           "the same class objects, or from a second ORMatic over the same ClassDiagram); every such generation must give a byte-identical file and "
                            "identical ORMatic containers. Across processes: other PYTHONHASHSEED (byte-identical) and shuffled hand-over order (same tables).")
     rep.assume = ["class and field names are ASCII identifiers; every class is a dataclass with at most one base, bases belong to the model",
                   "rustworkx.topological_sort returns a topological order of the graph it is given: the emission order handed to the model is the observed one and is checked on every case to be a topological order of ORMatic's inheritance graph (impl_order); that every such order is parents-first is C06_impl_order_is_topo"]
     rep.rule = ("random class models (1-5 classes, 0-6 fields each over scalars/Optional/enums/datetime/JSON lists/references/Optional references/"
                 "collections/private fields/redeclared inherited fields, inheritance depth 0-3, self and mutual references, several collections of one "
-                "target, shuffled hand-over order); one fresh subprocess per model, in which the layer is generated 2-4 times (steps: same = fresh ClassDiagram+ORMatic, shared = second ORMatic on the same ClassDiagram, other = a different model in between); distinct = distinct model text; non-trivial = at least one table "
+                "target, shuffled hand-over order); one fresh subprocess per model, in which the layer is generated 3-5 times (steps: instance = make_all_tables + to_sqlalchemy_file again on the same ORMatic instance, always; same = fresh ClassDiagram+ORMatic, shared = second ORMatic on the same ClassDiagram, other = a different model in between); distinct = distinct model text; non-trivial = at least one table "
                 "with a relationship or inheritance")
     ok_spec, log = core.coq_make(["Base/Sx.vo", "Orm/SchemaSpec.vo"])
     rep.oblige("build:spec", ok_spec, "" if ok_spec else core.first_error(log))
